@@ -8,6 +8,8 @@ from .. import scope as scopemod
 from .. import guards
 from ..repo import AnalysisError
 
+from . import shared
+
 LEVEL = "other"
 EXPLANATION = (
     "Decides which statements can end a claim and by which key: every write to "
@@ -19,6 +21,7 @@ EXPLANATION = (
     "release handler answers `released` on every path that passes validation; "
     "close removes only the nameplates of its own mailbox. Listing contents over "
     "histories are not separately decided.")
+EXPLANATION += ' Also decided: no start-up statement touches nameplates or claims.'
 
 
 def is_nameplate_key(sc, t, before):
@@ -48,6 +51,9 @@ def is_nameplate_key(sc, t, before):
 
 def run(ctx):
     model = ctx.model
+    shared.r_lookup(ctx, "R07.lookup", ('nameplates', 'nameplate_sides'))
+    shared.r_startup(ctx, "R07.startup", ('nameplates', 'nameplate_sides'),
+                     "a claim is ended by something other than its own side's release, expiry or the deletion of the mailbox")
     from .. import roles as _roles
     R = _roles.get(model)
     sc = scopemod.get(model)
@@ -152,7 +158,8 @@ def run(ctx):
                 verdict = None
                 for rows, sel in sel_after.items():
                     eq = sel["binds"]["where_eq"]
-                    if eq is None or set(eq) != {"nameplates_id"}:
+                    if eq is None or set(eq) != {"nameplates_id"} or \
+                            not sel["stmt"].plain_rows:
                         continue
                     found, ok, text = guards.guard_verdict(e["pc"][len(sel["pc"]):], rows, "claimed")
                     if found:
